@@ -5,6 +5,8 @@ package db
 // override, through Set / SetReader / Create.  Oracle lines: `<write result> <value read afterwards>`.
 
 import (
+	"time"
+	"context"
 	"io"
 	"bufio"
 	"bytes"
@@ -79,8 +81,55 @@ func TestVerifC10Inline(t *testing.T) {
 					if via == "reader" {
 						werr = im.d.SetReader(im.ctx, key, &c10Fail{b: data, failAt: pos})
 					} else {
-						// Create: the writer stops after `pos` bytes and never closes cleanly is not an
-						// error; instead the *storing side* fails: inject a write fault below.
+						// Create: the caller's context is cancelled after `pos` bytes; the rest is still
+						// written and the file closed.  Whatever Write / Close then report: an error means the
+						// key keeps its old value, nil means the whole content — and nobody ever reads a part.
+						ctx, cancel := context.WithCancel(im.ctx)
+						f, cerr := im.d.Create(ctx, key)
+						if cerr != nil {
+							cancel()
+							t.Fatalf("create: %v", cerr)
+						}
+						var anyErr error
+						if pos > 0 {
+							if _, e := f.Write(data[:pos]); e != nil {
+								anyErr = e
+							}
+						}
+						cancel()
+						partial := false
+						for w := 0; w < 15; w++ { // watch the key while the upload is in limbo
+							if b, e := im.d.Get(im.ctx, key); e == nil && !bytes.Equal(b, old) && !bytes.Equal(b, data) {
+								partial = true
+							}
+							time.Sleep(time.Millisecond)
+						}
+						if _, e := f.Write(data[pos:]); e != nil && anyErr == nil {
+							anyErr = e
+						}
+						if e := f.Close(); e != nil && anyErr == nil {
+							anyErr = e
+						}
+						got, gerr := im.d.Get(im.ctx, key)
+						after := "old"
+						switch {
+						case gerr != nil:
+							after = canonErr(gerr)
+						case bytes.Equal(got, data):
+							after = "new"
+						case !bytes.Equal(got, old):
+							after = fmt.Sprintf("CHANGED(len=%d)", len(got))
+						}
+						if partial {
+							after += "+PARTIAL-SEEN"
+						}
+						w := "ok"
+						if anyErr != nil {
+							w = "err"
+						}
+						fmt.Fprintf(ops, "c10 createcancel %d %d\n", ln, pos)
+						fmt.Fprintf(impl, "%s %s\n", w, after)
+						lines++
 						continue
 					}
 					got, gerr := im.d.Get(im.ctx, key)
